@@ -173,6 +173,12 @@ static std::vector<Scenario> make_scenarios(bool thorough) {
         free_fn("H2.welch-two-sizes.t2",
                 {{Op{"welch(nfft 16)", [] { auto r = welch(rletter(64, 111), 16); return mix(H(r.pxx), H(r.f)); }}, Op{"mscohere(16)", [] { return H(mscohere(rletter(64, 112), rletter(64, 113), 16)); }}},
                  {Op{"welch(nfft 32)", [] { auto r = welch(rletter(96, 114), 32); return mix(H(r.pxx), H(r.f)); }}, Op{"mscohere(32)", [] { return H(mscohere(rletter(96, 115), rletter(96, 116), 32)); }}}}, 2);
+        // three different window lengths in three threads (a small table of "recent" default windows / designs shared by all threads:
+        // the entry one thread is still reading is recycled once two other sizes have been requested)
+        free_fn("H2.welch-three-sizes.t3",
+                {{Op{"welch(16)", [] { auto r = welch(rletter(64, 131), 16); return mix(H(r.pxx), H(r.f)); }}},
+                 {Op{"welch(24)", [] { auto r = welch(rletter(96, 132), 24); return mix(H(r.pxx), H(r.f)); }}},
+                 {Op{"welch(32)", [] { auto r = welch(rletter(96, 133), 32); return mix(H(r.pxx), H(r.f)); }}, Op{"welch(cmplx,20)", [] { return H(welch(cletter(64, 134), 20).pxx); }}}}, 1);
         free_fn("H2.corr-sort.t2",
                 {{Op{"corr kendall(9)", [] { return (uint64_t)(1e12 * corr(rletter(9, 117), rletter(9, 118), Correlation::Kendall)); }}, Op{"sort/median(11)", [] { auto r = sort(rletter(11, 119)); return mix(H(r.first), (uint64_t)(1e12 * median(rletter(11, 120)))); }},
                   Op{"corr spearman(9)", [] { return (uint64_t)(1e12 * corr(rletter(9, 121), rletter(9, 122), Correlation::Spearman)); }}},
